@@ -78,10 +78,12 @@ class Check:
                                if f['property'] == pid]
 
     # ---------------------------------------------------------------- S1
-    def lean(self, pkg, props_module, exe=None, extra_modules=()):
-        """Build package `pkg`, re-elaborate the property file to collect `#print axioms`, audit sources."""
+    def lean(self, pkg, props_module, exe=None, extra_modules=(), build_targets=None):
+        """Build package `pkg`, re-elaborate the property file to collect `#print axioms`, audit sources.
+        build_targets: lake targets to build instead of the whole package (e.g. the property module of THIS check, when
+        several checks share one package and another one's modules are being worked on)."""
         pdir = os.path.join(LEAN_DIR, pkg)
-        targets = [pkg] + ([exe] if exe else [])
+        targets = (list(build_targets) if build_targets else [pkg]) + ([exe] if exe else [])
         t = time.time()
         rc, out = sh(['lake', 'build'] + targets, cwd=pdir, timeout=3000)
         self.proof['packages'].append(pkg)
@@ -171,7 +173,9 @@ class Check:
         return None
 
     # ---------------------------------------------------------------- S2
-    def build_harness(self, bins=None):
+    def build_harness(self, bins=None, fatal=True):
+        """fatal=False: a failing build is recorded as a broken tie (proof['broken']) and None is returned, so that the caller
+        can go on with the streams that do not need the in-process harness (the verdict logic of finish() is unchanged)"""
         hdir = os.path.join(VERIF, 'harness')
         tdir = os.path.join(VERIF, 'target', 'harness')
         if REPO != '/repo':
@@ -189,6 +193,10 @@ class Check:
         rc, out = sh(['cargo', 'build', '--offline'] + (sum([['--bin', b] for b in bins], []) if bins else []),
                      cwd=hdir, timeout=3000)
         if rc != 0:
+            if not fatal:
+                self.proof['broken'].append({'stage': 'build', 'errors': ['harness build failed (the in-process tie cannot be checked)'],
+                                             'log_tail': out[-4000:]})
+                return None
             self.fatal('harness build failed (the tie cannot be checked)', out[-4000:])
         return os.path.join(tdir, 'debug')
 
